@@ -168,6 +168,21 @@ func poisonSamples(ss []mp4.Sample) {
 	}
 }
 
+// scratchCopy returns b in a buffer with spare capacity; poisonBytes overwrites
+// the whole backing array afterwards.
+func scratchCopy(b []byte) []byte {
+	buf := make([]byte, len(b), len(b)+64)
+	copy(buf, b)
+	return buf
+}
+
+func poisonBytes(b []byte) {
+	b = b[:cap(b)]
+	for i := range b {
+		b[i] = 0xDB
+	}
+}
+
 func encodeBox(b mp4.Box, sw bool) ([]byte, error) {
 	if sw {
 		w := bits.NewFixedSliceWriter(int(b.Size()))
@@ -208,10 +223,16 @@ func BuildFragment(h *History, fs *FragmentSpec) (f *mp4.Fragment, tail []byte, 
 		switch op.Kind {
 		case OpAddFullSample:
 			s := op.Samples[0]
-			f.AddFullSample(mp4.FullSample{Sample: mp4.NewSample(s.Flags, s.Dur, s.Size, s.Cto), DecodeTime: s.DecodeTime, Data: s.Data()})
+			// the payload sits in a scratch buffer with spare capacity that the caller overwrites right
+			// after the call (a read buffer reused per sample): the library must have copied it
+			d := scratchCopy(s.Data())
+			f.AddFullSample(mp4.FullSample{Sample: mp4.NewSample(s.Flags, s.Dur, s.Size, s.Cto), DecodeTime: s.DecodeTime, Data: d})
+			poisonBytes(d)
 		case OpAddFullSampleToTrack:
 			s := op.Samples[0]
-			err = f.AddFullSampleToTrack(mp4.FullSample{Sample: mp4.NewSample(s.Flags, s.Dur, s.Size, s.Cto), DecodeTime: s.DecodeTime, Data: s.Data()}, op.Track)
+			d := scratchCopy(s.Data())
+			err = f.AddFullSampleToTrack(mp4.FullSample{Sample: mp4.NewSample(s.Flags, s.Dur, s.Size, s.Cto), DecodeTime: s.DecodeTime, Data: d}, op.Track)
+			poisonBytes(d)
 		case OpAddSample:
 			s := op.Samples[0]
 			f.AddSample(mp4.NewSample(s.Flags, s.Dur, s.Size, s.Cto), s.DecodeTime)
